@@ -66,6 +66,11 @@ def gen_cases(tier, seed):
             for nb in ("steps0", "steps-neg", "begin-session", "end-session"):
                 for after in (["step"], ["steps2"], ["stream-nobody", "step"]):
                     cases.append(dict(mode="samethread", first=a, read=k_read, between=[nb] + list(after), adapter=(k_read == 3), seed=seed))
+    # the client of a stream stalls for an hour between two chunks; stepping requests that arrive then are still refused
+    for a in ("stream", "stream-nobody"):
+        for k_read in (1, 3):
+            for after in (["step"], ["steps2"], ["stream-nobody", "step"]):
+                cases.append(dict(mode="samethread", first=a, read=k_read, between=["pause-1h"] + list(after), seed=seed))
     # a stream-steps request that is rejected (body without settings / unparseable body): the instance stays usable
     for bad in ("stream-bad-nosettings", "stream-bad-json"):
         for after in (["step"], ["steps2"], ["stream"], ["step-nobody", "stream-nobody"]):
@@ -311,7 +316,13 @@ def run_samethread(case, counters):
             calls.append((cur[0], before, self.session_state["step"] if self.session_state else None, ok))
     B.run_step = run_step
     out = {}
-    stepping = [b for b in case["between"] if b not in ("save-state", "begin-session", "end-session", "steps0", "steps-neg") and not b.startswith("stream-bad")]
+    stepping = [b for b in case["between"] if b not in ("pause-1h", "save-state", "begin-session", "end-session", "steps0", "steps-neg") and not b.startswith("stream-bad")]
+    # every clock of the `time` module is skewed by _skew[0] seconds while this sequence runs (threading keeps its own reference, taken at import)
+    import time as _time
+    _skew = [0.0]
+    _orig_clocks = {n: getattr(_time, n) for n in ("monotonic", "time", "perf_counter")}
+    for _n, _f in _orig_clocks.items():
+        setattr(_time, _n, (lambda f: (lambda: f() + _skew[0]))(_f))
     kinds = (["stream"] if case["first"] else []) + [("step" if b.startswith("step-") or b == "step" else "stream" if b.startswith("stream") else b) for b in stepping]
     base = 1 if case["first"] else 0
     rejected_ok = True
@@ -333,6 +344,11 @@ def run_samethread(case, counters):
                 rs = c.get("/save-state")
                 rs.get_data()
                 counters["saves_during_stream"] = counters.get("saves_during_stream", 0) + 1
+                continue
+            if b == "pause-1h":
+                # the client stalls: an hour passes on every clock the process can read, nothing else happens
+                _skew[0] += 3600.0
+                counters["long_client_pauses"] = counters.get("long_client_pauses", 0) + 1
                 continue
             if b in ("begin-session", "end-session", "steps0", "steps-neg"):
                 # requests that advance nothing themselves: whatever they answer, they must not let a later stepping request in while the
@@ -394,6 +410,8 @@ def run_samethread(case, counters):
         follow = (follow.status_code, follow.get_data(as_text=True)[:200])
         final_clock = inst.session_state["step"] if inst.session_state else None
     finally:
+        for _n, _f in _orig_clocks.items():
+            setattr(_time, _n, _f)
         B.run_step = orig
         srv.destroy_server(app)
         if tmp:
